@@ -296,6 +296,9 @@ func (d directFam) runDirect(rec *frec, o fobj, r *rand.Rand, nRandom int) {
 			add(n, false)
 			// every other distance (in elements) from the limit the model walks (EDGE records of FrameSizes.tla)
 			for _, d := range edgeSlacks {
+				if (d > edgeElems || d < -edgeElems) && fit*s[j] > 1<<20 {
+					continue // large messages: the nearest distances only (quick tier)
+				}
 				if d != 0 && d != -1 && fit-d >= 0 {
 					n[j] = fit - d
 					add(n, false)
